@@ -19,7 +19,7 @@
 (*   call(t,op,k[,v])  ret(t,r[,v])        op in ins rem get               *)
 (*   scall(t,kind,from,to,fwd,halt) visit(t,k,v) sret(t)                   *)
 (*   recheck(t,k,v0,v)   value view re-read before the quiescent state     *)
-(*   free(b,by,touchers) uaf(t,b) dblfree(b)                               *)
+(*   free(b,by,touchers) uaf(t,b) dblfree(b) wdisc(t,b)                         *)
 (*   final(keys,vals,held,mem,leaked,locked)                               *)
 (***************************************************************************)
 EXTENDS Integers, Sequences, FiniteSets, TLC, Json, IOUtils
@@ -153,6 +153,11 @@ Free == /\ Ev.e = "free"
 \* a hooked access inside a freed block / a second free of a block: only in other modes
 Uaf == /\ Ev.e \in {"uaf", "dblfree"} /\ ~CheckMem
        /\ l' = l + 1 /\ UNCHANGED <<abs, pend, scan>>
+\* write discipline (what makes validated reads snapshots, C07 as used by C03/C09): a store
+\* into a protected field of a published node by a thread that does not hold the node's write
+\* lock is rejected where results are judged
+WDisc == /\ Ev.e = "wdisc" /\ ~(CheckLin \/ CheckScan)
+         /\ l' = l + 1 /\ UNCHANGED <<abs, pend, scan>>
 
 -----------------------------------------------------------------------------
 (* end of an execution: sweep by a single thread, everything quiesced *)
@@ -186,7 +191,7 @@ Final == /\ Ev.e = "final"
 \* scheduler verdicts without an action (rejected): stuck, budget, crash, hang.
 \* In modes other than C14 a stuck/budget execution is skipped by the checker.
 
-TNext == \/ (l <= Len(JTrace) /\ (Reset \/ Call \/ Ret \/ Recheck \/ SCall \/ Visit \/ SRet \/ Free \/ Uaf \/ Final))
+TNext == \/ (l <= Len(JTrace) /\ (Reset \/ Call \/ Ret \/ Recheck \/ SCall \/ Visit \/ SRet \/ Free \/ Uaf \/ WDisc \/ Final))
          \/ (l <= Len(JTrace) /\ \E t \in AllT : Lin(t))
 TSpec == TInit /\ [][TNext]_tvars
 
